@@ -57,7 +57,166 @@ func attackRuns(c *run.Ctx, r *kit.Rng, s *kit.Summary) {
 	for i := 0; i < c.N(2, 12); i++ {
 		attackRun(c, r, s, st, i)
 	}
+	for i := 0; i < c.N(2, 8); i++ {
+		attackInterrupted(c, r, s, st, i)
+	}
 	st.Diff(c.Driver, s)
+}
+
+// attackInterrupted: the attack is interrupted ONCE while requests are in flight; the results that arrive
+// after the signal are written to the output like the others, so they must be observed like the others.
+// Several workers; the server answers `served` requests and then holds every further one on its own gate.
+// After the signal all but one of the held requests are released one by one; the last one stays held, so
+// the command cannot return (and close its exporter) and no further result can complete: once the output
+// holds served+k-1 results (each was observed before it was written) the scrape must account for all of them.
+func attackInterrupted(c *run.Ctx, r *kit.Rng, s *kit.Summary, st *kit.Stream, idx int) {
+	skip := func(why string) { s.Skipped["attack_interrupted:"+why]++ }
+	k := int(r.Range(2, 5))
+	served := int(r.Range(4, 30))
+	statuses := []int{200, 503, 200, 404, 201, 500}
+	var mu sync.Mutex
+	seen, open := 0, false
+	var gates []chan struct{}
+	heldCount := func() int { mu.Lock(); defer mu.Unlock(); return len(gates) }
+	releaseOne := func() bool {
+		mu.Lock()
+		defer mu.Unlock()
+		for i, g := range gates {
+			if g != nil {
+				close(g)
+				gates[i] = nil
+				return true
+			}
+		}
+		return false
+	}
+	releaseAll := func() {
+		mu.Lock()
+		open = true
+		for i, g := range gates {
+			if g != nil {
+				close(g)
+				gates[i] = nil
+			}
+		}
+		mu.Unlock()
+	}
+	srv := httptest.NewServer(http.HandlerFunc(func(w http.ResponseWriter, req *http.Request) {
+		io.Copy(io.Discard, req.Body)
+		mu.Lock()
+		seen++
+		n := seen
+		var gate chan struct{}
+		if n > served && !open {
+			gate = make(chan struct{})
+			gates = append(gates, gate)
+		}
+		mu.Unlock()
+		if gate != nil {
+			<-gate
+		}
+		w.WriteHeader(statuses[(n*5+idx)%len(statuses)])
+		w.Write(bytes.Repeat([]byte("y"), (n*53)%900))
+	}))
+	defer srv.Close()
+	defer releaseAll()
+	promPort, err := freePort()
+	if err != nil {
+		skip("no_port")
+		return
+	}
+	dir := filepath.Join(c.Work, fmt.Sprintf("attacki%d", idx))
+	os.MkdirAll(dir, 0o755)
+	targets, output := filepath.Join(dir, "targets.txt"), filepath.Join(dir, "results.gob")
+	os.WriteFile(targets, []byte("GET "+srv.URL+"/a\nPOST "+srv.URL+"/b\nGET "+srv.URL+"/c\n"), 0o644)
+	cmd := exec.Command(c.Vegeta, "attack", "-targets="+targets, "-rate=0", fmt.Sprintf("-max-workers=%d", k), fmt.Sprintf("-workers=%d", k),
+		"-duration=0", "-timeout=60s", fmt.Sprintf("-prometheus-addr=127.0.0.1:%d", promPort), "-output="+output)
+	cmd.Env = append([]string{}, os.Environ()...)
+	var stderr bytes.Buffer
+	cmd.Stderr = &stderr
+	if err := cmd.Start(); err != nil {
+		skip("start_failed")
+		return
+	}
+	done := make(chan struct{})
+	go func() { cmd.Wait(); close(done) }()
+	defer func() {
+		releaseAll()
+		cmd.Process.Signal(syscall.SIGINT)
+		select {
+		case <-done:
+		case <-time.After(3 * time.Second):
+			cmd.Process.Kill()
+			<-done
+		}
+	}()
+	waitFor := func(cond func() bool) bool {
+		deadline := time.Now().Add(15 * time.Second)
+		for time.Now().Before(deadline) {
+			if cond() {
+				return true
+			}
+			select {
+			case <-done:
+				return false
+			case <-time.After(5 * time.Millisecond):
+			}
+		}
+		return false
+	}
+	// all workers are held and everything answered so far has been written
+	if !waitFor(func() bool { return heldCount() >= k && len(decodeAll(output)) >= served }) {
+		skip("not_held_in_time")
+		return
+	}
+	// the one interrupt: the attack stops issuing hits, the held requests stay in flight
+	cmd.Process.Signal(syscall.SIGINT)
+	time.Sleep(200 * time.Millisecond) // lower bound only: gives the command time to handle the signal
+	want := served
+	for j := 0; j < k-1; j++ {
+		if !releaseOne() {
+			break
+		}
+		want++
+		w := want
+		if !waitFor(func() bool { return len(decodeAll(output)) >= w }) {
+			skip("drained_result_not_written_in_time")
+			return
+		}
+	}
+	// at least one request is still held: the command is alive, nothing more can complete
+	results := decodeAll(output)
+	resp, err := http.Get(fmt.Sprintf("http://127.0.0.1:%d/metrics", promPort))
+	if err != nil {
+		s.Violate(kit.Violation{Kind: "prom_exporter_unreachable", What: "the Prometheus exporter does not answer while interrupted requests are still in flight", Observed: err.Error()})
+		return
+	}
+	body, _ := io.ReadAll(resp.Body)
+	resp.Body.Close()
+	if again := decodeAll(output); len(again) != len(results) {
+		skip("not_quiescent")
+		return
+	}
+	var parser expfmt.TextParser
+	fams, err := parser.TextToMetricFamilies(bytes.NewReader(body))
+	if err != nil {
+		s.Violate(kit.Violation{Kind: "prom_exporter_unparsable", What: "exporter output is not valid exposition text", Observed: err.Error()})
+		return
+	}
+	sq := sequence{}
+	for _, x := range results {
+		sq.Results = append(sq.Results, res{Method: x.Method, URL: x.URL, Code: x.Code, BIn: x.BytesIn, BOut: x.BytesOut, Lat: int64(x.Latency), Err: x.Error})
+	}
+	var list []*dto.MetricFamily
+	for _, f := range fams {
+		list = append(list, f)
+	}
+	sc := scrapeOf(list)
+	s.Case(fmt.Sprintf("attack_interrupted:%d:%d", idx, len(results)), true)
+	s.Count("attack:interrupted_runs")
+	s.CountN("attack:results_after_interrupt", len(results)-served)
+	st.Add(opLine(sq), sc.line(true))
+	oracle(s, sq, sc)
 }
 
 func attackRun(c *run.Ctx, r *kit.Rng, s *kit.Summary, st *kit.Stream, idx int) {
